@@ -166,8 +166,8 @@ def to_z3(t, env=None, var_names=None):
     if op == "str.to_code": return z3.StrToCode(c[0])
     if op == "str.to_re": return z3.Re(c[0])
     if op == "re.range": return z3.Range(c[0], c[1])
-    if op == "re.++": return z3.Concat(c[0], c[1])
-    if op == "re.union": return z3.Union(c[0], c[1])
+    if op == "re.++": return z3.Concat(*c) if len(c) > 1 else c[0]
+    if op == "re.union": return z3.Union(*c) if len(c) > 1 else c[0]
     if op == "re.*": return z3.Star(c[0])
     if op == "re.+": return z3.Plus(c[0])
     if op == "re.opt": return z3.Option(c[0])
